@@ -6,8 +6,8 @@ export PYTHONDONTWRITEBYTECODE=1
 if [ -f harness/gen_tables.py ]; then
   PYTHONPATH="${VERIF_REPO:-/repo}:$PWD/harness" PYTHONHASHSEED=0 /venv/bin/python -W ignore harness/gen_tables.py
 fi
+PYTHONPATH="$PWD/harness" /venv/bin/python -W ignore -c "from vlib.core import ensure_makefile; ensure_makefile()"
 cd coq
-coq_makefile -f _CoqProject -o Makefile.coq > /dev/null
 timeout 3000 make -f Makefile.coq -j16 > /tmp/verif-setup-build.log 2>&1 || { tail -50 /tmp/verif-setup-build.log; exit 1; }
 cd ..
 /venv/bin/python -W ignore -c "import compileall,sys; sys.exit(0 if compileall.compile_dir('harness', quiet=1, legacy=False, optimize=0) else 1)" || true
